@@ -105,20 +105,25 @@ def gen_file(rng):
             table[(a, names[j])] = v
             vals.append(v)
         mlines.append("interaction_matrix %s %s%s" % (a, " ".join(vals), rng.choice(("", "#" + rng.choice(NAMES), "  # c"))))
-    # pair entries
+    # pair entries; the default line(s) are decided first so that some entries can repeat exactly
+    # the default in force (an entry equal to the default is still an explicit entry)
     pairs = {}
     plines = []
     default = None
+    defaults = []
+    if rng.random() < 0.8:
+        for _ in range(rng.choice((1, 1, 1, 2, 3))):
+            defaults.append((round(rng.uniform(1, 4), 2), round(rng.uniform(4, 7), 2)))
     npairs = rng.randint(0, 14)
     for _ in range(npairs):
         a, b = rng.choice(names), rng.choice(names)
-        v = (round(rng.uniform(1.5, 3.5), 2), round(rng.uniform(3.5, 6.0), 2))
-        pairs[(a, b)] = v
-        pairs[(b, a)] = v
+        if defaults and rng.random() < 0.25:
+            v = rng.choice(defaults + [(0.0, 0.0)])
+        else:
+            v = (round(rng.uniform(1.5, 3.5), 2), round(rng.uniform(3.5, 6.0), 2))
         plines.append("sidechain_cutoffs %s %s %.2f %.2f" % (a, b, v[0], v[1]))
-    if rng.random() < 0.8:
-        default = (round(rng.uniform(1, 4), 2), round(rng.uniform(4, 7), 2))
-        plines.insert(rng.randrange(0, len(plines) + 1), "sidechain_cutoffs default %.2f %.2f" % default)
+    for d in defaults:
+        plines.insert(rng.randrange(0, len(plines) + 1), "sidechain_cutoffs default %.2f %.2f" % d)
     # scalars
     scal = {}
     slines = []
@@ -148,14 +153,22 @@ def gen_file(rng):
             mi += 1
         out.append(line)
     out.extend(mlines[mi:])
-    # with repeated pair entries the last one in FILE order is the one that counts
+    # with repeated pair entries (and repeated default lines) the last one in FILE order counts
     pairs = {}
     for line in out:
         w = line.split()
         if len(w) == 5 and w[0] == "sidechain_cutoffs":
             pairs[(w[1], w[2])] = (float(w[3]), float(w[4]))
             pairs[(w[2], w[1])] = (float(w[3]), float(w[4]))
-    return "\n".join(out) + "\n", names, table, pairs, default, scal
+        elif len(w) == 4 and w[:2] == ["sidechain_cutoffs", "default"]:
+            default = (float(w[2]), float(w[3]))
+    text = "\n".join(out) + "\n"
+    if rng.random() < 0.25:
+        # no newline after the last line (and nothing but a value at its end)
+        while out and (not out[-1].strip() or out[-1].lstrip().startswith("#")):
+            out.pop()
+        text = "\n".join(out)
+    return text, names, table, pairs, default, scal
 
 
 def creatable_types():
